@@ -34,6 +34,11 @@ def sh(cmd, timeout=None, env=None, cwd=None):
     e = dict(os.environ)
     if env:
         e.update(env)
+    if cmd and cmd[0] == "tlc":
+        # TLC leaves an empty tlc-<n> directory in java.io.tmpdir on every start: keep them out of /tmp
+        jt = os.path.join(WORK, "jtmp")
+        os.makedirs(jt, exist_ok=True)
+        e["JAVA_TOOL_OPTIONS"] = (e.get("JAVA_TOOL_OPTIONS", "") + " -Djava.io.tmpdir=" + jt).strip()
     try:
         p = subprocess.run(cmd, stdout=subprocess.PIPE, stderr=subprocess.STDOUT, timeout=timeout,
                            env=e, cwd=cwd, text=True, errors="replace")
@@ -270,6 +275,12 @@ class Check:
         self.violations.append({"key": key, "what": what, "replay": path})
 
     def finish(self, extra=None):
+        jt = os.path.join(WORK, "jtmp")
+        for d in (os.listdir(jt) if os.path.isdir(jt) else []):
+            try:
+                os.rmdir(os.path.join(jt, d))   # (empty ones only)
+            except OSError:
+                pass
         known = load_known()
         real = []
         for v in self.violations:
